@@ -1058,6 +1058,7 @@ pub fn c10_big_records(tag: &str) -> Vec<Vec<u8>> {
         "all-S5-le-6" => crate::enumr::strings(crate::enumr::S5, 0, 6),
         "all-S5-le-5" => crate::enumr::strings(crate::enumr::S5, 0, 5),
         "ten-thousand" => (0..10_050usize).map(|i| long_record(3 + i % 5, i as u64)).collect(),
+        "seventy-thousand" => (0..70_000usize).map(|i| long_record(3 + i % 5, i as u64)).collect(),
         "long-records" => (0..12u64).map(|i| long_record(20_000, 100 + i)).collect(),
         _ => panic!("unknown record set"),
     }
@@ -1082,6 +1083,12 @@ pub fn c10_configs(ctx: &mut Ctx) {
     for (mm, w, threads) in [(2usize, 0usize, 4usize), (2, 3, 16)] {
         if sh.mine() {
             c10_free(ctx, &MinCase { threads, w, m: mm, records: many.clone() }, "ten-thousand");
+        }
+    }
+    // more records than a 16-bit record number can count
+    for (mm, w, threads) in [(2usize, 0usize, 3usize), (2, 3, 16)] {
+        if sh.mine() {
+            c10_free(ctx, &MinCase { threads, w, m: mm, records: c10_big_records("seventy-thousand") }, "seventy-thousand");
         }
     }
     let longs: Vec<Vec<u8>> = (0..12u64).map(|i| long_record(20_000, 100 + i)).collect();
@@ -1159,6 +1166,7 @@ pub fn c05_record_set(tag: &str) -> Vec<Vec<u8>> {
         "thirty-seven" => gen(37),
         "five-hundred" => gen(500),
         "five-thousand" => gen(5000),
+        "seventy-thousand" => gen(70_000),
         "long-first" => {
             let mut v = vec![crate::enumr::fill(b"ACGGTCA", 300_000)];
             v.extend(gen(6));
@@ -1291,6 +1299,18 @@ pub fn c05_lattice(ctx: &mut Ctx) {
                             }
                         }
                     }
+                }
+            }
+        }
+    }
+    // more records than a 16-bit record number can count
+    {
+        let recs = c05_record_set("seventy-thousand");
+        for threads in [1usize, 3, 16] {
+            for (writer, limit) in [("mmap", 4usize << 30), ("batch", 4 << 30), ("batch", 100_000), ("batch", 7)] {
+                if sh.mine() {
+                    c05_config(ctx, "seventy-thousand", &recs, 2, "fasta", threads, limit, writer, false, " ");
+                    n += 1;
                 }
             }
         }
